@@ -50,7 +50,10 @@ func NewGenFont(id int, kind string, r *rand.Rand) *GenFont {
 		}
 		// cp1252 specials that WinAnsiEncoding defines identically
 		codes = append(codes, 0x80, 0x82, 0x84, 0x85, 0x86, 0x87, 0x89, 0x8a, 0x8b, 0x8c, 0x8e, 0x91, 0x92, 0x93, 0x94, 0x96, 0x97, 0x99, 0x9a, 0x9b, 0x9c, 0x9e, 0x9f)
-		for c := 0xa1; c <= 0xff; c++ {
+		// 0xFE/0xFF are left out: a code string that begins FE FF or FF FE is read
+		// as a UTF-16 byte order mark (the decode priority C07 specifies), so
+		// such a string does not denote thorn / y-diaeresis text
+		for c := 0xa1; c <= 0xfd; c++ {
 			if c != 0xad {
 				codes = append(codes, c)
 			}
